@@ -124,6 +124,13 @@ theorem bin_facts (n : String) (h : n ∈ binNames) :
   | none => simp [hp] at h1
   | some p => simp [hp] at h1; exact ⟨p, rfl, h1⟩
 
+theorem bin_not_range (n : String) (h : n ∈ binNames) : (n = " " ∨ n = ":") = False := by
+  simp only [binNames, List.mem_cons, List.not_mem_nil, or_false] at h
+  rcases h with rfl | rfl | rfl | rfl | rfl | rfl | rfl | rfl | rfl | rfl | rfl | rfl <;> decide
+
+theorem signSym_not_range (n : String) : (signSym n = " " ∨ signSym n = ":") = False := by
+  unfold signSym; split <;> decide
+
 theorem sign_facts (n : String) (h : n ∈ signNames) : precOf n = some 7 ∧ arityOf n = 1 ∧ isRangeOp n = false ∧ n ≠ "%" := by
   simp only [signNames, List.mem_cons, List.not_mem_nil, or_false] at h
   rcases h with rfl | rfl <;> decide
@@ -319,7 +326,7 @@ theorem goal_sign (name : String) (a : Ast) (hn : name ∈ signNames) (hca : Can
   have hne : name ≠ signSym name := by
     have := f3; rw [f1] at this; exact this
   have hstep : step s (.opr (signSym name)) = .ok ⟨.op name :: bump s.st, s.out, .opr⟩ := by
-    simp only [step, signSym_pm name, false_and, if_false, oprStep, f1, h1, hne, popWhile_okTop 7 (by omega) s.st hok' s.out, h4]
+    simp only [step, signSym_pm name, signSym_not_range name, false_and, if_false, oprStep, f1, h1, hne, popWhile_okTop 7 (by omega) s.st hok' s.out, h4]
   rw [runToks_cons _ _ _ _ hstep (by simp)]
   have := iha ⟨.op name :: bump s.st, s.out, .opr⟩ (Or.inr (Or.inr rfl)) (by simp [TopLO]) (Or.inl haa)
   rw [this]
@@ -377,7 +384,7 @@ theorem goal_bin (name : String) (a b : Ast) (hn : name ∈ binNames) (hca : Can
   have hop : step (after a ⟨.lp 0 .pos false :: s.st, s.out, .lparen⟩) (.opr name) =
       .ok ⟨.op name :: .lp 1 .pos false :: s.st, a :: s.out, .opr⟩ := by
     have hfn := finalName_bin name (prevAfter a) hpa
-    simp only [step, hpa, not_true_eq_false, and_false, if_false, hnp, oprStep, after, hfn, hp, if_true, bump,
+    simp only [step, hpa, not_true_eq_false, and_false, if_false, hnp, bin_not_range name hn, false_and, oprStep, after, hfn, hp, if_true, bump,
       flush_popWhile a hca p (by omega), popWhile_lp]
   rw [runToks_cons _ _ _ _ hop (by simp)]
   -- right operand
